@@ -226,7 +226,25 @@ def cli(col, a, b, tmp, r, nbd):
         with open(fn, "w", encoding="utf8") as f:
             json.dump(disk_form(nb, r), f)
     flags = r.choice([[], ["--no-color"], ["-s", "-o"], ["-M", "-D"], ["--no-git"], ["--no-git", "--no-use-diff", "--no-color"], ["--color-words"]])
+    # the diff driver as git runs it inside a repository, with --use-filter: the remote file goes through the clean filter
+    # that the repository attaches to the path (a filter that matches, one that does not, none at all)
+    import subprocess
+    if not os.path.isdir(os.path.join(tmp, ".git")):
+        subprocess.run(["git", "init", "-q", tmp], capture_output=True)
+        subprocess.run(["git", "-C", tmp, "config", "filter.strip.clean", "sed -e 's/SECRET_[0-9]*/SECRET/g'"], capture_output=True)
+    with open(os.path.join(tmp, ".gitattributes"), "w") as f:
+        f.write(r.choice(["*.ipynb filter=strip\n", "sub/*.ipynb filter=strip\n", "", "A.ipynb filter=nosuchfilter\n"]))
+    cwd0 = os.getcwd()
+    os.chdir(tmp)
+    try:
+        _cli_runs(col, a, b, r, nbd, flags, fa, fb, nbdime, dd)
+    finally:
+        os.chdir(cwd0)
+
+
+def _cli_runs(col, a, b, r, nbd, flags, fa, fb, nbdime, dd):
     for name, main, argv in (("nbdiff", nbdime.nbdiffapp.main, flags + [fa, fb]),
+                             ("git-nbdiffdriver --use-filter", dd.main, ["diff", "--use-filter"] + flags + ["A.ipynb", fa, "0" * 40, "100644", fb, "1" * 40, "100644"]),
                              ("nbshow", nbdime.nbshowapp.main, [x for x in flags if x in ("-s", "-o", "-M", "-D")] + [fa]),
                              ("git-nbdiffdriver", dd.main, ["diff"] + flags + ["A.ipynb", fa, "0" * 40, "100644", fb, "1" * 40, "100644"])):
         nbd.hygiene()
